@@ -351,12 +351,28 @@ fn add_response_to_resources(
             return;
         }
 
-        if let Some(instance_information) =
-            InstanceInformation::from_records(service_name, resources.iter())
-        {
-            if channel.send(instance_information).is_err() {
-                *on_discovery = None
+        // one report per instance: a response may carry the records of several instances
+        let mut owners: Vec<&Name> = Vec::new();
+        for resource in &resources {
+            if !owners.contains(&&resource.name) {
+                owners.push(&resource.name);
             }
+        }
+
+        let mut closed = false;
+        for owner in owners {
+            if let Some(instance_information) = InstanceInformation::from_records(
+                service_name,
+                resources.iter().filter(|r| &r.name == owner),
+            ) {
+                if channel.send(instance_information).is_err() {
+                    closed = true;
+                    break;
+                }
+            }
+        }
+        if closed {
+            *on_discovery = None
         }
 
         for resource in resources {
